@@ -5,6 +5,7 @@ import (
 	"net"
 	"strconv"
 	"strings"
+	"testing/fstest"
 
 	coraza "github.com/corazawaf/coraza/v3"
 	"github.com/corazawaf/coraza/v3/experimental/plugins/plugintypes"
@@ -29,7 +30,16 @@ func opTx() (plugintypes.TransactionState, func()) {
 // op <name> <arg> <value> => 0|1|ERR : one direct operator call (no negation, no capture)
 func execOp(a []string) string {
 	name, arg, val := a[0], gen.Unfield(a[1]), gen.Unfield(a[2])
-	op, err := verifhooks.Operator(name, plugintypes.OperatorOptions{Arguments: arg})
+	opts := plugintypes.OperatorOptions{Arguments: arg}
+	switch name {
+	case "pmFromFile":
+		// the argument field is the content of the data file
+		opts = plugintypes.OperatorOptions{Arguments: "p.data", Path: []string{"."}, Root: fstest.MapFS{"p.data": &fstest.MapFile{Data: []byte(arg)}}}
+	case "pmFromDataset":
+		// the argument field is the dataset: phrases separated by line feeds
+		opts = plugintypes.OperatorOptions{Arguments: "ds", Datasets: map[string][]string{"ds": strings.Split(arg, "\n")}}
+	}
+	op, err := verifhooks.Operator(name, opts)
 	if err != nil {
 		return "ERR"
 	}
@@ -44,7 +54,7 @@ func execOp(a []string) string {
 }
 
 var opNames = []string{"streq", "contains", "beginsWith", "endsWith", "within", "eq", "ge", "gt", "le", "lt",
-	"validateUrlEncoding", "validateUtf8Encoding", "validateByteRange", "pm", "unconditionalMatch", "noMatch", "ipMatch"}
+	"validateUrlEncoding", "validateUtf8Encoding", "validateByteRange", "pm", "unconditionalMatch", "noMatch", "ipMatch", "pmFromFile", "pmFromDataset"}
 
 func numLike(r *gen.R) string {
 	switch r.Intn(12) {
@@ -290,6 +300,46 @@ func init() {
 					}
 				case 1:
 					w := ws[c.r.Intn(k)]
+					if len(w) > 1 {
+						val = w[:len(w)-1]
+					}
+				default:
+					val = c.r.ASCII(8)
+				}
+			case "pmFromFile", "pmFromDataset":
+				// phrases one per line; in a file: padded with blanks / tabs, CRLF line ends, comments, empty lines, no final line end
+				k := 1 + c.r.Intn(4)
+				ws := make([]string, k)
+				for j := range ws {
+					ws[j] = strings.ReplaceAll(c.r.ASCII(1+c.r.Intn(5)), " ", "x")
+					if c.r.Chance(0.15) {
+						ws[j] += " " + c.r.Pick("b", "Cd") // a phrase with a blank inside: one phrase here, not two
+					}
+				}
+				lines := append([]string{}, ws...)
+				if name == "pmFromFile" {
+					for j := range lines {
+						if c.r.Chance(0.3) {
+							lines[j] = c.r.Pick(" ", "\t", "   ", "") + lines[j] + c.r.Pick(" ", "\t", "  \t", "")
+						}
+					}
+					if c.r.Chance(0.3) {
+						lines = append(lines, c.r.Pick("# comment", "", "   ", "#"+ws[0]))
+						c.r.Shuffle(len(lines), func(i, j int) { lines[i], lines[j] = lines[j], lines[i] })
+					}
+					arg = strings.Join(lines, c.r.Pick("\n", "\n", "\r\n")) + c.r.Pick("\n", "", "\r\n")
+				} else {
+					arg = strings.Join(lines, "\n")
+				}
+				w := ws[c.r.Intn(k)]
+				switch c.r.Intn(5) {
+				case 0:
+					val = strings.ToUpper(w) // exactly the phrase, other case: the shortest possible hit
+				case 1:
+					val = c.r.ASCII(3) + strings.ToLower(w)
+				case 2:
+					val = w + c.r.ASCII(2)
+				case 3:
 					if len(w) > 1 {
 						val = w[:len(w)-1]
 					}
